@@ -31,6 +31,8 @@ pub struct ClientSim {
     pub outstanding: Vec<Outstanding>,
     /// every key the client asked the network for, in request order
     pub requested: Vec<RecordKey>,
+    /// client operations in progress (polled from `run_tasks`)
+    pub local_ops: Vec<std::pin::Pin<Box<dyn std::future::Future<Output = ()>>>>,
 }
 
 pub struct Op<T>(pub Arc<Mutex<Option<T>>>);
@@ -53,6 +55,7 @@ pub enum Term {
 impl Drop for ClientSim {
     fn drop(&mut self) {
         let _g = self.rt.enter();
+        self.local_ops.clear();
         self.outstanding.clear();
     }
 }
@@ -62,23 +65,30 @@ impl ClientSim {
         let rt = tokio::runtime::Builder::new_current_thread().enable_all().build().expect("runtime");
         let (net, events, driver) = rt.block_on(async { NetworkBuilder::new(keypair, true).build_client().expect("build_client") });
         let client = Client::verif_from_network(net.clone(), ant_evm::EvmNetwork::ArbitrumOne);
-        ClientSim { rt, net, driver, events, client, outstanding: vec![], requested: vec![] }
+        ClientSim { rt, net, driver, events, client, outstanding: vec![], requested: vec![], local_ops: vec![] }
     }
 
-    pub fn spawn<T: Send + 'static>(&mut self, fut: impl std::future::Future<Output = T> + Send + 'static) -> Op<T> {
+    /// Start a client operation. The future is NOT handed to `tokio::spawn` (that would demand `Send`,
+    /// which the client API does not promise): it is kept here and polled from `run_tasks`.
+    pub fn spawn<T: 'static>(&mut self, fut: impl std::future::Future<Output = T> + 'static) -> Op<T> {
         let slot = Arc::new(Mutex::new(None));
         let s2 = slot.clone();
-        self.rt.block_on(async move {
-            tokio::spawn(async move {
-                let r = fut.await;
-                *s2.lock().unwrap() = Some(r);
-            });
-        });
+        self.local_ops.push(Box::pin(async move {
+            let r = fut.await;
+            *s2.lock().unwrap() = Some(r);
+        }));
         Op(slot)
     }
 
     pub fn run_tasks(&mut self) {
+        let ops = &mut self.local_ops;
         self.rt.block_on(async {
+            // one poll of every unfinished client operation, in start order
+            std::future::poll_fn(|cx| {
+                ops.retain_mut(|f| f.as_mut().poll(cx).is_pending());
+                std::task::Poll::Ready(())
+            })
+            .await;
             let done = Arc::new(std::sync::atomic::AtomicBool::new(false));
             let d2 = done.clone();
             tokio::spawn(async move {
